@@ -99,3 +99,51 @@ func genFuzz(r *lib.RNG, thorough bool) (*Scenario, *World) {
 	}
 	return sc, w
 }
+
+// leadScenario is the fixed UNdisciplined history of `timeout_before_start_breaks_one_vote`
+// (Props.lean): timeouts delivered before ProcessStart make validator 3 prevote 8 and nil in
+// (height 0, round 0). It is replayed on the real machine to show that the model's witness is the
+// real behaviour; it is not a violation (the driver never delivers a timeout to an unstarted height).
+func leadScenario() *Scenario {
+	stale := In{Kind: "to", Step: 2, H: 7, R: 0}
+	pv := func(r, s int, v uint64) In { return In{Kind: "pv", H: 0, R: r, Sender: s, Value: v} }
+	ins := []In{
+		{Kind: "prop", H: 0, R: 0, Sender: 0, VR: -1, Value: 8}, stale,
+		pv(0, 0, 8), pv(0, 2, 8), stale,
+		{Kind: "pc", H: 0, R: 0, Sender: 0, Nil: true}, {Kind: "pc", H: 0, R: 0, Sender: 2, Nil: true}, stale,
+		{Kind: "to", Step: 2, H: 0, R: 0},
+		{Kind: "prop", H: 0, R: 1, Sender: 1, VR: -1, Value: 12}, stale,
+		pv(1, 0, 12), pv(1, 1, 12), pv(1, 2, 12), stale,
+		{Kind: "start", R: 0},
+	}
+	sc := &Scenario{Cfg: Cfg{Powers: []uint64{1, 1, 1, 1}, Total: 4, VMod: 4, VRem: 3, PMul: 1, Tbl: []int{0, 1, 2, 3}},
+		Nodes: []NodeSpec{{Node: 3, Height: 0, VBase: 400, VStep: 4}}}
+	for _, in := range ins {
+		sc.Events = append(sc.Events, Event{M: 0, In: in})
+	}
+	return sc
+}
+
+func runLead(res *lib.Result, drv *lib.Driver) {
+	sc := leadScenario()
+	w := Replay(sc)
+	askCompare(res, drv, w, sc, "fuzz")
+	var sawValue, sawNil bool
+	for _, acts := range w.Acts {
+		for _, a := range acts {
+			if a.Kind == "BV" && a.H == 0 && a.R == 0 {
+				if a.Nil {
+					sawNil = true
+				} else if a.Value == 8 {
+					sawValue = true
+				}
+			}
+		}
+	}
+	if sawValue && sawNil {
+		res.Hit("lead/timeout-before-start:conflicting-prevotes-reproduced-on-real-machine")
+		res.Note("lead (not a violation: inadmissible environment): ProcessTimeout before ProcessStart makes the real machine prevote 8 and nil in (0,0); see notes/C12.md")
+	} else {
+		res.Hit("lead/timeout-before-start:not-reproduced")
+	}
+}
